@@ -799,11 +799,13 @@ fn main() {
     }
     // ---------------- F2: cmr10, every pair of vocabulary words
     {
-        let short: Vec<&String> = vocab.iter().filter(|w| w.len() <= 16).collect();
-        let sel: Vec<usize> = if ctx.quick() { vec![1, 5, 9, 14] } else { (0..hys.len()).collect() };
+        // quick: the words of at most 16 characters; thorough: the whole vocabulary (incl. the 63..65-letter words)
+        let maxlen = ctx.pick(16usize, usize::MAX);
+        let short: Vec<&String> = vocab.iter().filter(|w| w.len() <= maxlen).collect();
+        let sel: Vec<usize> = (0..hys.len()).collect();
         let (nv, nh) = (short.len() as u64, sel.len() as u64);
         let (short_r, hys_r, env_r, cmr_r, sel_r) = (&short, &hys, &env, &cmr, &sel);
-        ctx.family("cmr10-two-words", &format!("cmr10: 'x W1 W2' for every ordered pair of the {nv} words of at most 16 characters x {nh} (pattern set, minima) settings"), nv * nv * nh, |idx, acc| {
+        ctx.family("cmr10-two-words", &format!("cmr10: 'x W1 W2' for every ordered pair of the {nv} words{} x all {nh} (pattern set, minima) settings", if maxlen == 16 { " of at most 16 characters" } else { " of the vocabulary" }), nv * nv * nh, |idx, acc| {
             let d = vcore::digits(idx, &[nv, nv, nh]);
             let (ps, l, r, hy) = &hys_r[sel_r[d[2] as usize]];
             let case = Case { program: vec![], text: format!("x {} {}", short_r[d[0] as usize], short_r[d[1] as usize]), patterns: ps.clone(), lhm: *l, rhm: *r };
@@ -840,12 +842,13 @@ fn main() {
         });
     }
     {
-        let words = words_ab(ctx.pick(3, 4));
-        let st: Vec<&str> = if ctx.quick() { vec!["x {}", "x {}.", "x -{}", "x {}-a"] } else { synth_templates.clone() };
-        let smins: Vec<(i32, i32)> = ctx.pick(vec![(1, 1)], vec![(1, 1), (2, 2), (1, 2)]);
+        // quick: 400 rules (ligatures inserting a|b|c); thorough: 528 rules (also inserting '-')
+        let words = words_ab(4);
+        let st: Vec<&str> = synth_templates.clone();
+        let smins: Vec<(i32, i32)> = vec![(1, 1), (2, 2), (1, 2)];
         let n1 = rules1.len() as u64;
         let (words_r, env_r, st_r, smins_r, rules1_r, rules2_r) = (&words, &env, &st, &smins, &rules1, &rules2);
-        ctx.family("synthetic-two-rules", &format!("every unordered pair of the {n1} single rules (ligatures inserting {}) with different (left,right) (index space {n1}^2) x all {} words over {{a,b}} of length 1..{} x {} templates x 'every position' patterns x {} minima setting(s)", ins_text(&inserted), words.len(), ctx.pick(3, 4), st.len(), smins.len()), n1 * n1, |idx, acc| {
+        ctx.family("synthetic-two-rules", &format!("every unordered pair of the {n1} single rules (ligatures inserting {}) with different (left,right) (index space {n1}^2) x all {} words over {{a,b}} of length 1..4 x {} templates ({}) x 'every position' patterns x minima (1,1),(2,2),(1,2)", ins_text(&inserted), words.len(), st.len(), st.join(" | ").replace("{}", "W")), n1 * n1, |idx, acc| {
             let (i, j) = (idx / n1, idx % n1);
             if j <= i {
                 return;
@@ -858,18 +861,20 @@ fn main() {
             run_synthetic(idx, &[a, b], words_r, st_r, smins_r, env_r, acc);
         });
     }
-    if !ctx.quick() {
-        // three rules over a reduced rule set
+    {
+        // three rules over a reduced rule set. quick: kern, LIG, LIG/, LIG/>, /LIG>, /LIG/> inserting a;
+        // thorough: also ligatures inserting c (a superset)
         let kinds: Vec<u8> = vec![0, 1, 2, 4, 6];
-        let r1 = all_rules(65536, &[b'a', b'c'], &kinds);
-        let r2 = all_rules(2 * 65536, &[b'a', b'c'], &kinds);
-        let r3 = all_rules(3 * 65536, &[b'a', b'c'], &kinds);
+        let ins3: Vec<u8> = ctx.pick(vec![b'a'], vec![b'a', b'c']);
+        let r1 = all_rules(65536, &ins3, &kinds);
+        let r2 = all_rules(2 * 65536, &ins3, &kinds);
+        let r3 = all_rules(3 * 65536, &ins3, &kinds);
         let words = words_ab(3);
         let st: Vec<&str> = vec!["x {}", "x {}.", "x -{}", "x {}-a"];
         let smins: Vec<(i32, i32)> = vec![(1, 1)];
         let n = r1.len() as u64;
         let (words_r, env_r, st_r, smins_r, r1, r2, r3) = (&words, &env, &st, &smins, &r1, &r2, &r3);
-        ctx.family("synthetic-three-rules", &format!("every unordered triple of {n} rules (kern, LIG, LIG/, LIG/>, /LIG>, /LIG/> inserting a|c) with pairwise different (left,right) (index space {n}^3) x all words over {{a,b}} of length 1..3 x 4 templates x 'every position' patterns x minima (1,1)"), n * n * n, |idx, acc| {
+        ctx.family("synthetic-three-rules", &format!("every unordered triple of {n} rules (kern{} inserting {}) with pairwise different (left,right) (index space {n}^3) x all words over {{a,b}} of length 1..3 x {} templates ({}) x 'every position' patterns x minima (1,1)", kinds.iter().map(|k| format!(", {}", POSTLIG_PL[*k as usize])).collect::<String>(), ins_text(&ins3), st.len(), st.join(" | ").replace("{}", "W")), n * n * n, |idx, acc| {
             let (i, j, k) = (idx / (n * n), idx / n % n, idx % n);
             if !(i < j && j < k) {
                 return;
